@@ -93,6 +93,8 @@ type tracer struct {
 	shadow  *[]string // event summary for listener-consistency checks
 	primary bool
 	nesting *bool // true while a nested run on the same engine value is in progress: its events are not this run's
+	maxc    uint64
+	over    *bool // the run went two cycles beyond its budget: that is flagged by then, the rest of it is not recorded
 }
 
 type nestFact struct{ X int64 }
@@ -126,7 +128,12 @@ func preRun(dc ast.IDataContext) {
 
 // shadowRun executes the first call of the case on a fresh instance with NO listener registered: what a run does
 // may not depend on whether anybody watches it (C06: any number of registered listeners).
-func shadowRun(c *Case, cc *CallCfg, watchdog time.Duration) (J, string, bool) {
+func shadowRun(c *Case, cc *CallCfg, watchdog time.Duration) (facts J, class string, ok bool) {
+	defer func() {
+		if r := recover(); r != nil {
+			facts, class, ok = nil, "", false // (numbers that left every range cannot be projected: nothing to compare)
+		}
+	}()
 	kb, err := safeBuild(c)
 	if err != nil {
 		return nil, "", false
@@ -248,6 +255,10 @@ func (l *tracer) BeginCycle(ctx context.Context, c uint64) {
 	if l.nesting != nil && *l.nesting {
 		return
 	}
+	if l.over != nil && (*l.over || c > l.maxc+2) {
+		*l.over = true
+		return
+	}
 	l.note(fmt.Sprintf("c%d", c))
 	if !l.primary {
 		return
@@ -259,6 +270,10 @@ func (l *tracer) EvaluateRuleEntry(ctx context.Context, c uint64, e *ast.RuleEnt
 	if l.nesting != nil && *l.nesting {
 		return
 	}
+	if l.over != nil && (*l.over || c > l.maxc+2) {
+		*l.over = true
+		return
+	}
 	l.note(fmt.Sprintf("e%d:%s:%v", c, e.RuleName, can))
 	if !l.primary {
 		return
@@ -268,6 +283,10 @@ func (l *tracer) EvaluateRuleEntry(ctx context.Context, c uint64, e *ast.RuleEnt
 }
 func (l *tracer) ExecuteRuleEntry(ctx context.Context, c uint64, e *ast.RuleEntry) {
 	if l.nesting != nil && *l.nesting {
+		return
+	}
+	if l.over != nil && (*l.over || c > l.maxc+2) {
+		*l.over = true
 		return
 	}
 	l.note(fmt.Sprintf("x%d:%s", c, e.RuleName))
@@ -519,7 +538,12 @@ func runCall(c *Case, ci int, kb *ast.KnowledgeBase, em *Emitter, watchdog time.
 			cancel()
 		}
 	}
-	w.F.hook = func(ev J) { em.Emit(ev) }
+	over := false
+	w.F.hook = func(ev J) {
+		if !over {
+			em.Emit(ev)
+		}
+	}
 	w.F.gate = gate
 	looks := 0
 	if cc.LookAt > 0 {
@@ -550,7 +574,7 @@ func runCall(c *Case, ci int, kb *ast.KnowledgeBase, em *Emitter, watchdog time.
 	eng = &engine.GruleEngine{MaxCycle: cc.Max, ReturnErrOnFailedRuleEvaluation: cc.Flag}
 	shadows := make([][]string, c.Listener)
 	for i := 0; i < c.Listener; i++ {
-		eng.Listeners = append(eng.Listeners, &tracer{em: em, world: w, gate: gate, shadow: &shadows[i], primary: i == 0, nesting: &nesting})
+		eng.Listeners = append(eng.Listeners, &tracer{em: em, world: w, gate: gate, shadow: &shadows[i], primary: i == 0, nesting: &nesting, maxc: cc.Max, over: &over})
 	}
 	type result struct {
 		err     error
@@ -590,7 +614,10 @@ func runCall(c *Case, ci int, kb *ast.KnowledgeBase, em *Emitter, watchdog time.
 		hung = true
 		atomic.AddInt32(&hangs, 1)
 	}
-	ret := J{"ev": "ret", "facts": w.Snapshot(), "rule": "", "what": ""}
+	ret := J{"ev": "ret", "facts": J{}, "rule": "", "what": ""}
+	if !over {
+		ret["facts"] = w.Snapshot() // (a run that went beyond its budget is flagged by then; its numbers may have left every range)
+	}
 	switch {
 	case hung:
 		ret["err"] = "hang"
